@@ -9,7 +9,8 @@ mkdir -p .work/seeded-runs
 for d in seeded/${1:-}*/; do
   n=$(basename $d)
   prop=$(python3 -c "import json;print(json.load(open('$d/meta.json'))['breaks_property'])")
-  git -C /repo apply $d/patch.diff || { echo "$n: patch does not apply"; continue; }
+  if grep -q '"applies_to_current_tree": false' $d/meta.json; then echo "$n: skipped (patch is against an older tree)"; continue; fi
+  git -C /repo apply /verif/$d/patch.diff || { echo "$n: patch does not apply"; continue; }
   bin/check $prop --tier quick > .work/seeded-runs/$n.log 2>&1; rc=$?
   git -C /repo checkout -- .
   echo "$n: check $prop exit=$rc violations=$(grep -c '^VIOLATION' .work/seeded-runs/$n.log) :: $(grep -m1 counterexample .work/seeded-runs/$n.log | cut -c1-160)"
